@@ -43,10 +43,10 @@ Definition g_sspor_update_modes (have : Z) (x_rows : option Z) (v : pv) : outcom
   end.
 
 (* measurement arrays: not an ndarray, or an ndarray with a given number of features *)
-Inductive arr := NotArray | Arr (width : Z).
+Inductive arr := NotArray | Arr (width : Z) | BadRank.      (* BadRank: an ndarray that is neither 1-D nor 2-D (0-d, 3-D, ...) *)
 Definition g_validate_input (x : arr) (expected : option Z) : outcome :=
   match x with
-  | NotArray => Err ValueError
+  | NotArray | BadRank => Err ValueError
   | Arr w => match expected with Some e => if w =? e then Ok else Err ValueError | None => Ok end
   end.
 Definition g_sspor_predict (fitted : bool) (n_sensors : Z) (x : arr) : outcome :=
